@@ -66,7 +66,7 @@ def split_files(rng, units, cur_dir, files, depth, counter, stats):
             sp = rel_spelling(rng, cur_dir, child_dir, name, None)
             q = rng.choice(['"', "'"])
             text = ('@import url(%s%s%s);' if rng.random() < 0.2 else '@import %s%s%s;') % (q, sp, q)
-            out.append(('import', sp, text))
+            out.append(('import', sp, text, tuple(child_dir + [name])))
             stats['imports'] += 1
             stats['max_depth'] = max(stats['max_depth'], depth + 1)
             i += k
@@ -130,7 +130,7 @@ def run(ctx):
     out = {'evaluations': 0, 'spec_mismatch': [], 'model_mismatch': [], 'harness_errors': []}
     base = tempfile.mkdtemp(prefix='lessverif-c14-')
     cases = []
-    agg = {'imports': 0, 'subdirs': 0, 'parent_dirs': 0, 'max_depth': 0, 'missing_file_cases': 0}
+    agg = {'imports': 0, 'subdirs': 0, 'parent_dirs': 0, 'max_depth': 0, 'missing_file_cases': 0, 'duplicate_imports': 0}
     try:
         tries = 0
         while len(cases) < n and tries < n * 20:
@@ -143,6 +143,16 @@ def run(ctx):
             main_units = split_files(rng, sh, [], files, 0, [0], stats)
             if not stats['imports']:
                 continue
+            if rng.random() < 0.35:
+                # the same file imported a second time, later in one of the files (pasting puts its text there twice)
+                holders = [u for u in list(files.values()) + [main_units] if u and any(x[0] == 'import' for x in u)]
+                if holders:
+                    h = rng.choice(holders)
+                    imp_units = [x for x in h if x[0] == 'import']
+                    dup = rng.choice(imp_units)
+                    at = rng.randint(h.index(dup) + 1, len(h))
+                    h.insert(at, dup)
+                    stats['duplicate_imports'] = stats.get('duplicate_imports', 0) + 1
             files[('main.less',)] = main_units
             L = S.Layout(rng)
             root = os.path.join(base, 'c%d' % len(cases))
@@ -158,7 +168,15 @@ def run(ctx):
             for k2, v2 in stats.items():
                 agg[k2] = max(agg[k2], v2) if k2 == 'max_depth' else agg[k2] + v2
             agg['missing_file_cases'] += 1 if removed else 0
-            cases.append({'sheet': sh, 'root': root, 'files': model_files, 'removed': removed, 'pasted': S.show(sh, L), 'opts': rng.choice(SC.ALL_OPTS),
+            def paste(units, cur_dir):
+                out = []
+                for u in units:
+                    if u[0] == 'import':
+                        out.append(paste(files[u[3]], list(u[3][:-1])))
+                    else:
+                        out.append(S.show_stmts([u[1]], L))
+                return '\n'.join(out)
+            cases.append({'sheet': sh, 'root': root, 'files': model_files, 'removed': removed, 'pasted': paste(main_units, []) + '\n', 'opts': rng.choice(SC.ALL_OPTS),
                           'tree_text': {'/'.join(p): (file_text(u, L) if p != removed else None) for p, u in files.items()}, 'stats': stats})
         with impl.Pool() as pool:
             a_tree = pool.run([{'kind': 'compile_file', 'path': os.path.join(c['root'], 'main.less'), 'opts': SC.impl_opts(c['opts'])} for c in cases], timeout=30)
